@@ -247,7 +247,9 @@ impl<W: Clone + PartialEq + PartialOrd + SampleUniform + SubAssign<W> + Weight>
     /// is unlike [`Distribution::sample`], which panics in those cases.
     pub fn try_sample<R: Rng + ?Sized>(&self, rng: &mut R) -> Result<usize, Error> {
         let total_weight = self.subtotals.first().cloned().unwrap_or(W::ZERO);
-        if total_weight == W::ZERO {
+        // Same condition as `is_valid`: with float weights, rounding residue can leave a tiny negative
+        // total after all weights went back to zero, and sampling from `0..negative` would panic.
+        if !(total_weight > W::ZERO) {
             return Err(Error::InsufficientNonZero);
         }
         let mut target_weight = rng.random_range(W::ZERO..total_weight);
